@@ -66,3 +66,11 @@ func init() {
 		Rule:       "rapid draws a pool of 2-10 events (all classes, deletion requests before/after their targets, 3-element tags, arbitrary Unicode content and tag values, tag names differing only in case), a history of 1-5 (quick) / 1-10 (thorough) batches (any split, duplicates, the same event in several batches) inserted directly or through 1-3 concurrent handler sessions with bulk size 1-3, database flavour (memory/file, DELETE/WAL, 1-3 connections, xxhash seed) and after every batch 1-4 filter lists (limit 0/1, empty lists, several #x, overlapping filters), half of them through REQ on a session. The match-everything answer is judged against the specification set built from the statement, every other answer against it with the tie-tolerant answer checker, all seven fields compared. Non-trivial: at least two distinct events inserted; distinct = distinct case hash.",
 		Assumptions: []string{"equal-timestamp versions of one address: either may be kept", "address references to replaceable events and to versions newer than the deletion request are left open", "addressable events without d tag are not constrained", "64-bit key collisions under the drawn xxhash seed are not excluded (probability ~1e-8 per run) and would surface as a violation to be inspected"}}
 }
+
+func init() {
+	props["C14"] = propCfg{Level: "fault_enumeration", QuickS: 45, ThoroughS: 600,
+		Components: []string{"handler/sqlite: insertEvents (transaction, 5 prepared statements, commit/rollback), queryEvent, Migrate, setOrLoadXXHashSeed, NewSQLiteHandler with bulkInsertWithRetry and its real back-off", "database/sql, mattn/go-sqlite3 + SQLite on files (journal DELETE and WAL), SQLite's own crash recovery and SQLITE_FULL"},
+		Stubs:      []string{"the database/sql driver is wrapped by a fault-injecting driver (fails, cancels or snapshots at the k-th BeginTx/Prepare/Stmt.Exec/Commit)", "wall clock (retry back-off 1s/2s runs on the simulated clock)", "one scripted client for the handler path"},
+		Rule:       "rapid draws an event pool, 0-3 pre-history batches and a batch of 1-3 (quick) / 1-5 (thorough) events. The batch is first run fault-free under the counting driver to learn its N driver calls; then EVERY k in 1..N is executed three ways on a fresh copy of the pre-history database: injected I/O error at call k (answers must equal those before the batch; then retry must give the answers of a single success), context cancellation before call k, and process death before call k (database files copied, copy reopened, SQLite recovery) - plus real SQLITE_FULL at 3 page limits, success-then-repeat, fail/fail/succeed through the handler's retry loop, close/reopen and dirty reopen after every pre-history batch, and comparison with a twin database that was never closed. evaluations = sampled (pre-history, batch) cases; each enumerates all its fault points. Non-trivial: N >= 8; distinct = distinct case hash.",
+		Assumptions: []string{"crash points are driver-call boundaries, not arbitrary bytes inside one SQLite commit (no VFS shim available)", "limited probes are judged with the tie-tolerant answer checker instead of equality across databases"}}
+}
